@@ -37,36 +37,45 @@ MAIN_VARIANTS = [
 	'def main_f(a: int) -> int:\n\tb = a + 1\n\treturn b * 2\n',
 	'class M:\n\tn: int\n\n\tdef __init__(self, n: int) -> None:\n\t\tself.n = n\n\n\tdef get(self) -> int:\n\t\treturn self.n\n\n\ndef main_f(a: int) -> int:\n\tm = M(a)\n\treturn m.get()\n',
 	'from proj.leaf import base_val, Item\n\n\ndef main_f() -> int:\n\tv = base_val()\n\tit = Item(v)\n\tw = it.value\n\treturn it.count\n',
+	'def main_f(a: int) -> int:\n\txs: list[int] = [a, a]\n\tds: dict[str, int] = {\'k\': a}\n\treturn len(xs) + len(ds)\n',
 ]
 MAIN_BAD = [
 	'def main_f(a: int) -> int:\n\treturn a +\n',
 	'def main_f(a: int) -> int:\n\treturn undefined_thing + a\n',
 	'def main_f(:\n',
 	'def main_f(a: int) -> int:\n\tx, y = a\n\treturn x\n',
+	# refused while the text is being emitted (after some of it has been rendered)
+	'def main_f(xs: list[int]) -> int:\n\tys: list[int] = xs\n\treturn undefined_thing\n',
+	'def main_f(d: dict[str, int]) -> int:\n\tn = len(d)\n\treturn d.nothing\n',
+	'def main_f(a: int) -> int:\n\tb = a + 1\n\treturn b.no_attr\n',
 ]
 LIB = 'rogw.tranp.compatible.libralies.type'
 
 
-def env_for_ref() -> dict:
+def env_for_ref(config: str | None = None) -> dict:
 	env = dict(os.environ)
+	if config:
+		env['VF_C04_CONFIG'] = config
+	else:
+		env.pop('VF_C04_CONFIG', None)
 	env['PYTHONPATH'] = os.pathsep.join([ROOT, REPO, os.path.join(ROOT, '.deps', 'py313')])
 	env['PYTHONDONTWRITEBYTECODE'] = '1'
 	env['PYTHONHASHSEED'] = '0'
 	return env
 
 
-def references(workdir: str, src_dir: str, modules: list[str], mains: list[str]) -> dict[str, str | None]:
+def references(workdir: str, src_dir: str, modules: list[str], mains: list[str], config: str | None = None) -> dict[str, str | None]:
 	"""One fresh process with its own empty cache directory per module."""
 	procs = []
 	for i, m in enumerate(modules):
 		cache = os.path.join(workdir, f'refcache-{i}')
-		procs.append((m, subprocess.Popen([PY, '-X', 'utf8', '-m', 'vf.props.c04_ref', src_dir, cache, m], stdout=subprocess.PIPE, stderr=subprocess.PIPE, cwd=REPO, env=env_for_ref(), text=True)))
+		procs.append((m, subprocess.Popen([PY, '-X', 'utf8', '-m', 'vf.props.c04_ref', src_dir, cache, m], stdout=subprocess.PIPE, stderr=subprocess.PIPE, cwd=REPO, env=env_for_ref(config), text=True)))
 	for j, text in enumerate(mains):
 		path = os.path.join(workdir, f'main-{j}.py')
 		with open(path, 'w', encoding='utf-8') as f:
 			f.write(text)
 		cache = os.path.join(workdir, f'refcache-main-{j}')
-		procs.append((f'__main__#{j}', subprocess.Popen([PY, '-X', 'utf8', '-m', 'vf.props.c04_ref', src_dir, cache, '__main__', path], stdout=subprocess.PIPE, stderr=subprocess.PIPE, cwd=REPO, env=env_for_ref(), text=True)))
+		procs.append((f'__main__#{j}', subprocess.Popen([PY, '-X', 'utf8', '-m', 'vf.props.c04_ref', src_dir, cache, '__main__', path], stdout=subprocess.PIPE, stderr=subprocess.PIPE, cwd=REPO, env=env_for_ref(config), text=True)))
 	out: dict[str, str | None] = {}
 	for m, p in procs:
 		try:
@@ -77,6 +86,30 @@ def references(workdir: str, src_dir: str, modules: list[str], mains: list[str])
 			continue
 		out[m] = so[3:] if so.startswith('OK\n') else None
 	return out
+
+
+def depends_config(workdir: str, hid: int) -> str:
+	"""A user configuration that uses the documented view hook emit_depends: a template directory in front of the stock one whose
+	list-type template asks for `#include <vector>` (the stock templates never call the hook, so the per-transpile list of requested
+	includes would otherwise stay empty). The session and every fresh-process reference use the same configuration."""
+	tdir = os.path.join(workdir, f'tpl{hid}')
+	os.makedirs(os.path.join(tdir, 'type'), exist_ok=True)
+	with open(os.path.join(REPO, 'data/cpp/template/type/list_type.j2'), encoding='utf-8') as f:
+		stock = f.read()
+	with open(os.path.join(tdir, 'type', 'list_type.j2'), 'w', encoding='utf-8') as f:
+		f.write("{{- emit_depends('<vector>') -}}\n" + stock)
+	with open(os.path.join(REPO, 'data/cpp/template/type/dict_type.j2'), encoding='utf-8') as f:
+		stock = f.read()
+	with open(os.path.join(tdir, 'type', 'dict_type.j2'), 'w', encoding='utf-8') as f:
+		f.write("{{- emit_depends('<map>') -}}\n" + stock)
+	import yaml
+	with open(os.path.join(REPO, 'example/config.yml'), encoding='utf-8') as f:
+		cfg = yaml.safe_load(f)
+	cfg['template_dirs'] = [tdir] + [os.path.join(REPO, d) for d in cfg['template_dirs']]
+	path = os.path.join(workdir, f'config{hid}.yml')
+	with open(path, 'w', encoding='utf-8') as f:
+		yaml.safe_dump(cfg, f)
+	return path
 
 
 def snapshot_others(s, loaded: list[str], skip: set[str]) -> dict:
@@ -111,11 +144,13 @@ def run_history(acc: Acc, r: random.Random, workdir: str, hid: int, n_ops: int) 
 	sources[hp.names['u']] = TypedGen(random.Random(r.getrandbits(32)), size=3).program(n_funcs=2).source
 	cli.write_sources(src_dir, sources)
 	mods = hp.modules()
-	refs = references(workdir, src_dir, mods + [LIB], MAIN_VARIANTS)
+	config = depends_config(workdir, hid) if hid % 2 == 0 else None
+	acc.see('configuration', 'user template calling emit_depends' if config else 'stock')
+	refs = references(workdir, src_dir, mods + [LIB], MAIN_VARIANTS, config)
 	if any(refs.get(m) is None for m in mods):
 		acc.inconc('fresh-process reference failed for a project module (project does not transpile)', [m for m in mods if refs.get(m) is None])
 		return
-	s = Session(cache_dir=os.path.join(workdir, f'sesscache{hid}'), extra_definitions={'rogw.tranp.app.env.SourceEnvPath': lambda: SourceEnvPath.instantiate([src_dir])})
+	s = Session(cache_dir=os.path.join(workdir, f'sesscache{hid}'), extra_definitions={'rogw.tranp.app.env.SourceEnvPath': lambda: SourceEnvPath.instantiate([src_dir])}, config=config or 'example/config.yml')
 	pmon.install()
 	importers = {hp.names[k]: [hp.names[x] for x in hp.names if k in hp.closure_of(x)] for k in hp.names}
 	loaded: list[str] = []
